@@ -425,6 +425,52 @@ fn gap_tokens(text: &str) -> Vec<(TokenKind, usize, usize, u64)> {
     out
 }
 
+type GapTok = (TokenKind, usize, usize, u64);
+
+/// A comma directly in front of a closing delimiter is (lexically approximated) the optional trailing
+/// separator the formatter adds when a list breaks: it comes and goes with the re-breaking of a group and
+/// must not turn a layout difference into "tokens differ". Such a comma is removed where the other text
+/// does not have it. Only the key is affected by this approximation, never the verdict (byte equality).
+fn align_optional_commas(a: Vec<GapTok>, b: Vec<GapTok>) -> (Vec<GapTok>, Vec<GapTok>) {
+    let optional = |v: &Vec<GapTok>, i: usize| -> bool {
+        v[i].0 == TokenKind::COMMA
+            && v.get(i + 1)
+                .map(|n| matches!(n.0, TokenKind::R_PAREN | TokenKind::R_BRACKET | TokenKind::R_BRACE | TokenKind::OR))
+                .unwrap_or(false)
+    };
+    let (mut i, mut j) = (0usize, 0usize);
+    let (mut ra, mut rb): (Vec<GapTok>, Vec<GapTok>) = (vec![], vec![]);
+    let (mut ca, mut cb) = (0usize, 0usize); // gap carried over a removed comma (max, not sum)
+    while i < a.len() || j < b.len() {
+        let same = i < a.len() && j < b.len() && a[i].0 == b[j].0 && a[i].3 == b[j].3;
+        if !same && i < a.len() && optional(&a, i) {
+            ca = ca.max(a[i].1);
+            i += 1;
+            continue;
+        }
+        if !same && j < b.len() && optional(&b, j) {
+            cb = cb.max(b[j].1);
+            j += 1;
+            continue;
+        }
+        if i < a.len() {
+            let mut t = a[i];
+            t.1 = t.1.max(ca);
+            ra.push(t);
+            i += 1;
+        }
+        if j < b.len() {
+            let mut t = b[j];
+            t.1 = t.1.max(cb);
+            rb.push(t);
+            j += 1;
+        }
+        ca = 0;
+        cb = 0;
+    }
+    (ra, rb)
+}
+
 const GAP_NAMES: [&str; 4] = ["same-line", "newline", "blank-line", "blank-lines"];
 
 /// Key of a non-idempotence. Both outputs have the same token sequence (otherwise `tokens-differ`); the
@@ -443,12 +489,12 @@ fn idem_key(first: &str, second: &str) -> (String, String) {
     }
     let ctx = |s: &str, lo: usize| -> String { s.get(lo..).unwrap_or("").chars().take(120).collect() };
     let what0 = format!("second formatting differs at byte {}: {:?} vs {:?}", p, ctx(first, lo), ctx(second, lo));
-    let (a, b) = (gap_tokens(first), gap_tokens(second));
+    let (a, b) = align_optional_commas(gap_tokens(first), gap_tokens(second));
     let same_tokens = a.len() == b.len() && a.iter().zip(b.iter()).all(|(x, y)| x.0 == y.0 && x.3 == y.3);
     if !same_tokens {
         // comments moved relative to code tokens, or an optional separator came or went
         let i = a.iter().zip(b.iter()).position(|(x, y)| x.0 != y.0 || x.3 != y.3).unwrap_or(a.len().min(b.len()));
-        let cls = |v: &Vec<(TokenKind, usize, usize, u64)>| v.get(i).map(|t| tok_class(t.0)).unwrap_or_else(|| "END".into());
+        let cls = |v: &Vec<GapTok>| v.get(i).map(|t| tok_class(t.0)).unwrap_or_else(|| "END".into());
         return (format!("c17:not-idempotent:tokens-differ:{}->{}", cls(&a), cls(&b)), what0);
     }
     let fewer = (0..a.len()).find(|&i| b[i].1 < a[i].1);
